@@ -49,7 +49,9 @@ CONSTANTS Defect,    \* "none" (shipped) | "counter_by_identity" (the
           SFacts, SInfos,
           HKeys,     \* set of required
           HFacts, HInfos,
-          MaxLive    \* bound on the total number of listed registrations
+          MaxLive,   \* bound on the total number of listed registrations
+          MaxEpoch   \* re-initialisations distinguished in the state (0:
+                     \* the state after __init__ IS the initial state)
 
 VARIABLES ureg,   \* set of [p, n, c, i, f]   _utility_registrations
           areg,   \* set of [r, p, n, f, i]   _adapter_registrations
@@ -65,14 +67,18 @@ VARIABLES ureg,   \* set of [p, n, c, i, f]   _utility_registrations
                   \* (provided 0 = None: handlers)
           events, \* Seq of event records notified by the last call
           ret,    \* return value of the last call: -1 None, 0 False, 1 True
-          call    \* the last call (hidden from the VIEW together with
+          call,   \* the last call (hidden from the VIEW together with
                   \* events and ret)
+          epoch   \* number of re-initialisations so far, capped by MaxEpoch:
+                  \* makes the replay reach states THROUGH a re-initialised
+                  \* object (a stale _v_utility_registrations_cache would
+                  \* only show in calls made after __init__)
 
 listing == <<ureg, areg, sreg, hreg>>
 ustate == <<ureg, uadp, usub, ucnt, urep>>
 astate == <<areg, sreg, hreg, aadp, asub>>
 content == <<ureg, areg, sreg, hreg, uadp, usub, ucnt, urep, aadp, asub>>
-vars == <<content, events, ret, call>>
+vars == <<content, events, ret, call, epoch>>
 
 (***************************************************************************)
 (* Universe (fixed; the MC module chooses which parts the calls range over)*)
@@ -196,7 +202,8 @@ RegisterUtility(c, p, n, i, ev, fac) ==
         s2 == UR_Register(s1, p, n, c, i, fac)
         new == [p |-> p, n |-> n, c |-> c, i |-> i, f |-> fac]
         e2 == IF ev THEN <<UEventOf("R", new, {c})>> ELSE <<>>
-    IN /\ call' = Call("registerUtility", c, 0, 0, p, n, i, ev, fac)
+    IN /\ UNCHANGED epoch
+       /\ call' = Call("registerUtility", c, 0, 0, p, n, i, ev, fac)
        /\ ret' = RNone
        /\ UNCHANGED astate
        /\ IF already THEN events' = <<>> /\ UNCHANGED ustate
@@ -209,7 +216,8 @@ UnregisterUtility(c, p, n, fac) ==
         miss == old = {} \/ (c # 0 /\ EqRep(c) # EqRep(o.c))
         comp == IF c = 0 THEN o.c ELSE c
         adm == IF c = 0 THEN {o.c} ELSE EqClass(o.c)
-    IN /\ call' = Call("unregisterUtility", c, 0, 0, p, n, "", TRUE, fac)
+    IN /\ UNCHANGED epoch
+       /\ call' = Call("unregisterUtility", c, 0, 0, p, n, "", TRUE, fac)
        /\ UNCHANGED astate
        /\ IF miss THEN ret' = 0 /\ events' = <<>> /\ UNCHANGED ustate
           ELSE /\ SetU(UR_Unregister(UState, p, n, comp))
@@ -217,6 +225,7 @@ UnregisterUtility(c, p, n, fac) ==
                /\ ret' = 1
 
 RegisterAdapter(f, r, p, n, i, ev) ==
+    /\ UNCHANGED epoch
     /\ call' = Call("registerAdapter", 0, f, r, p, n, i, ev, 0)
     /\ areg' = (areg \ AAt(areg, r, p, n)) \cup
                {[r |-> r, p |-> p, n |-> n, f |-> f, i |-> i]}
@@ -232,7 +241,8 @@ UnregisterAdapter(f, r, p, n) ==
     LET old == AAt(areg, r, p, n)
         o == The(old)
         miss == old = {} \/ (f # 0 /\ FEqRep(f) # FEqRep(o.f))
-    IN /\ call' = Call("unregisterAdapter", 0, f, r, p, n, "", TRUE, 0)
+    IN /\ UNCHANGED epoch
+       /\ call' = Call("unregisterAdapter", 0, f, r, p, n, "", TRUE, 0)
        /\ UNCHANGED <<ustate, sreg, hreg, asub>>
        /\ IF miss THEN ret' = 0 /\ events' = <<>> /\ UNCHANGED <<areg, aadp>>
           ELSE /\ areg' = areg \ old
@@ -241,6 +251,7 @@ UnregisterAdapter(f, r, p, n) ==
                /\ ret' = 1
 
 RegisterSubscriptionAdapter(f, r, p, i, ev) ==
+    /\ UNCHANGED epoch
     /\ call' = Call("registerSubscriptionAdapter", 0, f, r, p, "", i, ev, 0)
     /\ sreg' = Append(sreg, [r |-> r, p |-> p, f |-> f, i |-> i])
     /\ asub' = [asub EXCEPT ![r][p] = Append(@, f)]
@@ -256,7 +267,8 @@ UnregisterSubscriptionAdapter(f, r, p) ==
                THEN e.r = r /\ FEqRep(e.f) = FEqRep(f)
                ELSE e.r = r /\ e.p = p /\ FEqRep(e.f) = FEqRep(f)
         new == SelectSeq(sreg, LAMBDA e : ~Drop(e))
-    IN /\ call' = Call("unregisterSubscriptionAdapter", 0, f, r, p, "", "",
+    IN /\ UNCHANGED epoch
+       /\ call' = Call("unregisterSubscriptionAdapter", 0, f, r, p, "", "",
                        TRUE, 0)
        /\ UNCHANGED <<ustate, areg, hreg, aadp>>
        /\ IF Len(new) = Len(sreg)
@@ -270,6 +282,7 @@ UnregisterSubscriptionAdapter(f, r, p) ==
                /\ ret' = 1
 
 RegisterHandler(f, r, i, ev) ==
+    /\ UNCHANGED epoch
     /\ call' = Call("registerHandler", 0, f, r, 0, "", i, ev, 0)
     /\ hreg' = Append(hreg, [r |-> r, f |-> f, i |-> i])
     /\ asub' = [asub EXCEPT ![r][0] = Append(@, f)]
@@ -281,7 +294,8 @@ UnregisterHandler(f, r) ==
     LET Drop(e) == IF f = 0 THEN e.r = r
                    ELSE e.r = r /\ FEqRep(e.f) = FEqRep(f)
         new == SelectSeq(hreg, LAMBDA e : ~Drop(e))
-    IN /\ call' = Call("unregisterHandler", 0, f, r, 0, "", "", TRUE, 0)
+    IN /\ UNCHANGED epoch
+       /\ call' = Call("unregisterHandler", 0, f, r, 0, "", "", TRUE, 0)
        /\ UNCHANGED <<ustate, areg, sreg, aadp>>
        /\ IF Len(new) = Len(hreg)
           THEN ret' = 0 /\ events' = <<>> /\ UNCHANGED <<hreg, asub>>
@@ -305,6 +319,7 @@ EmptyContent ==
 Reinit ==
     /\ Live > 0
     /\ call' = Call("reinit", 0, 0, 0, 0, "", "", TRUE, 0)
+    /\ epoch' = IF epoch < MaxEpoch THEN epoch + 1 ELSE epoch
     /\ ureg' = {} /\ areg' = {} /\ sreg' = <<>> /\ hreg' = <<>>
     /\ uadp' = {} /\ aadp' = {}
     /\ usub' = [p \in Provs |-> <<>>]
@@ -314,7 +329,7 @@ Reinit ==
     /\ events' = <<>> /\ ret' = RNone
 
 Init == /\ EmptyContent
-        /\ events = <<>> /\ ret = RNone
+        /\ events = <<>> /\ ret = RNone /\ epoch = 0
         /\ call = Call("init", 0, 0, 0, 0, "", "", TRUE, 0)
 
 Room == Live < MaxLive
